@@ -1,10 +1,10 @@
-\* binary_interval_search design model: all sorted ranges of length <= 8 over six letters, 13 queries each
+\* SEEDED SPEC MUTANT (pivot clamp rght-1 instead of rght-2): TLC must REJECT this configuration (assertion in Compare)
 SPECIFICATION Spec
 CONSTANTS
   Letters <- LettersSkew
   Queries <- QueriesSkew
-  MaxLen = 8
-  Mode = "interp"
+  MaxLen = 4
+  Mode = "any"
   Clamp = 1
 INVARIANTS Correct LoopInv ExitByBreak
 PROPERTIES Variant Finishes
